@@ -273,6 +273,7 @@ def run(ix, R):
     strictness(ix, R, fams, table)
     # ---- 4. every constructor keyword is used
     use(ix, R, table)
+    cli_binner(ix, R)
     # ---- 5. API
     api_obligations(ix, R, '5.api', [FA + '::get_keywordarg_dict', FA + '::create_klass', FA + '::determine_klass',
                                      FA + '::create_model', FA + '::generate_contributions',
@@ -541,6 +542,68 @@ def use(ix, R, table):
                                'the value given in the input file is ignored' % (c.name, k), loc=f.loc())
     if n < 100:
         R.error('4.use.count', 'USE', 'taurex', 'constructor keywords are found', 'found %d' % n)
+
+
+def cli_binner(ix, R):
+    """7.cli.binner: which binner (and grid) the command line uses, as a decision table over the [Binning] selector and
+    the presence of an [Observation] - exhaustive over the finite set of cases, evaluated on the merged selection
+    expression that reaches generate_instrument(binner=...) (three-valued guard evaluation, sa/guards.py)."""
+    from sa.guards import Regions
+    site = 'taurex/taurex.py::main'
+    with R.guard('7.cli.binner', 'GUARD', site, 'command-line binner'):
+        f = ix.func(site)
+        fl = mkflow(ix, site)
+        gi = one(calls(fl, 'generate_instrument'), 'generate_instrument call')
+        sel = gi.kw.get('binner') if gi.kw.get('binner') is not None else (gi.args[0] if gi.args else None)
+        if sel is None:
+            raise AnalysisError('binner argument not found')
+        gb = one(calls(fl, 'generate_binning'), 'generate_binning call')
+        go = one(calls(fl, 'generate_observation'), 'generate_observation call')
+        B = fl.tab.atom('mcall', (gb.recv_rf,) + tuple(gb.args), extra=('fn:generate_binning',)) if gb.recv_rf is not None else None
+        O = fl.tab.atom('mcall', (go.recv_rf,) + tuple(go.args), extra=('fn:generate_observation',)) if go.recv_rf is not None else None
+        if B is None or O is None:
+            raise AnalysisError('selector / observation expressions not found')
+        env = {'B': B, 'O': O}
+        atoms = {'Bnone': spec(fl, 'B is None', env), 'Bnative': spec(fl, "B == 'native'", env),
+                 'Bobs': spec(fl, "B == 'observed'", env), 'Onone': spec(fl, 'O is None', env),
+                 'Oself': spec(fl, "O == 'self'", env), 'Btuple': spec(fl, 'isinstance(B, tuple)', env)}
+        reg = Regions(fl.tab, atoms)
+
+        def leaf(rf, asg):
+            a = atom_of(fl, rf)
+            while a is not None and a.head == 'guard':
+                c, flipped = fl.tab.canon_cond(a.args[0])
+                v = reg.ev(c, asg)
+                if v is None:
+                    return None
+                if flipped:
+                    v = not v
+                rf = a.args[1] if v else a.args[2]
+                a = atom_of(fl, rf)
+            return rf
+        cases = []
+        for b in ('none', 'native', 'observed', 'manual'):
+            for o in ('none', 'self', 'given'):
+                if b == 'observed' and o == 'none':
+                    continue            # rejected before the selection (quit)
+                cases.append((b, o))
+        why = []
+        for b, o in cases:
+            asg = {'Bnone': b == 'none', 'Bnative': b == 'native', 'Bobs': b == 'observed',
+                   'Onone': o == 'none', 'Oself': o == 'self', 'Btuple': b == 'manual'}
+            lf = leaf(sel, asg)
+            if lf is None:
+                raise AnalysisError('selection depends on a condition outside the table for case %s/%s: %s' % (b, o, fmt(fl, sel)[:120]))
+            t = fmt(fl, lf)
+            got = 'native' if 'defaultBinner' in t else 'observed' if 'create_binner' in t else 'manual'
+            want = {'native': 'native', 'observed': 'observed', 'manual': 'manual'}.get(b) or \
+                ('native' if o in ('none', 'self') else 'observed')
+            if got != want:
+                why.append('[Binning] %s with observation %s -> %s binner (documented: %s)' % (b, o, got, want))
+        R.check('7.cli.binner', 'GUARD', site,
+                'command line: bin_type native -> model grid, observed -> observation grid, manual -> the given grid, '
+                'no [Binning] -> observation grid if an observation is loaded else the model grid (%d cases)' % len(cases),
+                not why, key='; '.join(why), detail='; '.join(why), loc=f.loc(gi.node))
 
 
 TE = 'taurex/data/profiles/temperature/'
